@@ -39,6 +39,8 @@
                  around it — M cannot mask it — to the last-resort recovery of executeItemWithMiddleware: the item
                  is answered failed echoing operation and id, the placeholder is cleared)
       → ok <ver> <count> <ritems> entered=<calls>     entered: the items handed to the chain, in order
+    place.mw <chain> <request>      → ok obs=<obs>    what the handlers read with that item chain installed (a masked
+                                    returned error leaves the placeholder alone; refusal, failure and panic clear it)
 
     place.run <mode> <request> {' | ' <request>}
         mode := 'seq' | 'nest' | 'par' | 'il:' <rid> {'.' <rid>}
@@ -169,26 +171,66 @@ private def parseStage (s : String) : Option MwStage :=
       else ((String.ofList rest).splitOn ".").mapM String.toNat? |>.map fun l => { kind := k, set := l }
     else none
 
-/-- `executeItemWithMiddleware` with the chain installed, as an item executor for `loopG`. -/
-private def chainItem (srv : Srv) (chain : List MwStage) (i : Nat) (ph : Val) (it : Batch.Item) : GItemOut :=
-  -- the Bool: a panic is unwinding (raised by a stage; no stage around it can mask or rewrite the outcome)
-  let failedItem : GItemOut := { ri := { op := it.op, id := it.id, failed := true, reason := 0 }, ph := 0 }
-  let rec go : List MwStage → GItemOut × Bool
-    | [] => (plainItem srv i ph it, false)
+/-- what comes out of the item chain for one item, BEFORE `executeItemWithMiddleware` finishes it. -/
+private structure ChainOut where
+  ri : RItem
+  ph : Val
+  err : Bool          -- a non-nil error accompanies the item (`handleBatchItemError` is still to come)
+  unw : Bool          -- a panic is unwinding: no stage around can mask or rewrite the outcome
+  obs : List Val      -- what the handler read
+
+/-- the item chain on item `i`: `executeItem` (which returns a handler's error WITHOUT touching the item or
+    the placeholder, but fails the item and clears the placeholder itself when the handler panics) wrapped in
+    the stages. A masking stage that swallows a returned error therefore leaves the placeholder as the
+    handler left it. -/
+private def chainRaw (srv : Srv) (chain : List MwStage) (i : Nat) (ph : Val) (it : Batch.Item) : ChainOut :=
+  let echo (f : Bool) : RItem := { op := it.op, id := it.id, failed := f, reason := 0 }
+  let rec go : List MwStage → ChainOut
+    | [] =>
+      let x := executeItem srv ph it
+      { ri := x.1.ri, ph := x.1.ph, err := x.2.isSome, unw := false, obs := x.1.obs }
     | st :: rest =>
       if st.set.contains i then
-        if st.kind = 'R' then (failedItem, false)
-        else if st.kind = 'P' then (failedItem, true)
+        if st.kind = 'R' then { ri := echo false, ph := ph, err := true, unw := false, obs := [] }
+        else if st.kind = 'P' then { ri := echo true, ph := 0, err := false, unw := true, obs := [] }
         else
           let x := go rest
-          if x.2 then x
+          if x.unw then x
           else if st.kind = 'M' then
-            ({ ri := { op := it.op, id := it.id, failed := false, reason := 0 }, ph := x.1.ph }, false)
-          else if st.kind = 'E' then ({ ri := { x.1.ri with failed := true }, ph := 0 }, false)
-          else if st.kind = 'Q' then (failedItem, true)
+            (if x.err || x.ri.failed then { x with ri := echo false, err := false } else x)
+          else if st.kind = 'E' then { x with err := true }
+          else if st.kind = 'Q' then { x with ri := echo true, ph := 0, unw := true }
           else x
       else go rest
-  (go chain).1
+  go chain
+
+/-- `executeItemWithMiddleware` with the chain installed, as an item executor for `loopG`: an unwinding
+    panic is caught by the last-resort recovery, a returned error by `handleBatchItemError`; both fail the
+    item and clear the placeholder. Second component: what the handler read. -/
+private def chainItemObs (srv : Srv) (chain : List MwStage) (i : Nat) (ph : Val) (it : Batch.Item) :
+    GItemOut × List Val :=
+  let x := chainRaw srv chain i ph it
+  if x.unw || x.err then ({ ri := { x.ri with failed := true }, ph := 0 }, x.obs)
+  else ({ ri := x.ri, ph := x.ph }, x.obs)
+
+private def chainItem (srv : Srv) (chain : List MwStage) (i : Nat) (ph : Val) (it : Batch.Item) : GItemOut :=
+  (chainItemObs srv chain i ph it).1
+
+/-- the loop of `loopG` again, collecting what the handlers read (item index, value). -/
+private def mwObs (f : Nat → Val → Batch.Item → GItemOut × List Val) (stop : Bool) :
+    List Batch.Item → Nat → Bool → Val → List (Nat × Val)
+  | [], _, _, _ => []
+  | it :: rest, i, stopped, ph =>
+    if stopped then mwObs f stop rest (i + 1) true ph
+    else
+      let o := f i ph it
+      o.2.map (fun v => (i, v)) ++ mwObs f stop rest (i + 1) (o.1.ri.failed && stop) o.1.ph
+
+/-- `place.mw`: what the handlers read with the item chain installed. -/
+def mwPlace (chain : List MwStage) (srv : Srv) (req : Req) : String :=
+  if Accepted srv req then
+    "ok obs=" ++ renderObs (mwObs (chainItemObs srv chain) (req.opt == optStop) req.items 0 false 0)
+  else "ok obs=-"
 
 def mwRun (chain : List MwStage) (srv : Srv) (req : Req) : String :=
   if Accepted srv req then
@@ -321,6 +363,11 @@ def handleBatch (cmd arg : String) : Option String :=
     let (ch, rest) := splitCmd arg
     match (ch.splitOn ",").mapM parseStage, parseRequest rest with
     | some chain, some (srv, req) => mwRun chain srv req
+    | _, _ => "bad-op"
+  | "place.mw" => some <|
+    let (ch, rest) := splitCmd arg
+    match (ch.splitOn ",").mapM parseStage, parseRequest rest with
+    | some chain, some (srv, req) => mwPlace chain srv req
     | _, _ => "bad-op"
   | "place.obs" => some <|
     match parseRequest arg with
